@@ -372,6 +372,24 @@ func loadFindings(path, prop string) *findingSet {
 
 const verifDir = "/verif"
 
+// outDir is where evidence and replay files are written; VERIF_OUT redirects
+// them (used only when the checks are tried against seeded defects, so that
+// the committed evidence is never overwritten by such a run).
+func outDir() string {
+	if d := os.Getenv("VERIF_OUT"); d != "" {
+		return d
+	}
+	return verifDir
+}
+
+// repoDir is the go-cty checkout the harness was built against.
+func repoDir() string {
+	if d := os.Getenv("VERIF_REPO"); d != "" {
+		return d
+	}
+	return "/repo"
+}
+
 func main() {
 	if len(os.Args) < 3 {
 		fmt.Fprintln(os.Stderr, "usage: mc <ID> <quick|thorough> [--replay file] [--emit-findings]")
@@ -671,13 +689,13 @@ func runParent(ck *Check, tier string, seed int64, emit bool) int {
 	}
 	if len(fresh) > 0 {
 		exit = 1
-		os.MkdirAll(filepath.Join(verifDir, "replays", ck.ID), 0o755)
+		os.MkdirAll(filepath.Join(outDir(), "replays", ck.ID), 0o755)
 		for i, v := range fresh {
 			if i >= 25 {
 				fmt.Printf("... and %d more distinct violation classes\n", len(fresh)-i)
 				break
 			}
-			path := filepath.Join(verifDir, "replays", ck.ID, fmt.Sprintf("%s-%s-u%d-%d.json", ck.ID, tier, v.Unit, i))
+			path := filepath.Join(outDir(), "replays", ck.ID, fmt.Sprintf("%s-%s-u%d-%d.json", ck.ID, tier, v.Unit, i))
 			rb, _ := json.MarshalIndent(map[string]interface{}{
 				"property": ck.ID, "tier": tier, "seed": seed, "unit": v.Unit,
 				"site": v.Site, "shape": v.Shape, "detail": v.Detail,
@@ -747,7 +765,8 @@ func writeEvidence(ck *Check, tier string, seed int64, m *WorkerResult, distinct
 		"violations":  fresh,
 	}
 	b, _ := json.MarshalIndent(ev, "", " ")
-	path := filepath.Join(verifDir, "evidence", ck.ID+".json")
+	os.MkdirAll(filepath.Join(outDir(), "evidence"), 0o755)
+	path := filepath.Join(outDir(), "evidence", ck.ID+".json")
 	os.WriteFile(path+".tmp", b, 0o644)
 	os.Rename(path+".tmp", path)
 }
